@@ -1,5 +1,5 @@
 CONSTANTS
-  MaxDepth = 2
+  MaxDepth = 1
   Shapes <- ShapesThorough
   FullMaskSize = 6
 SPECIFICATION Spec
